@@ -17,7 +17,14 @@ import time
 import traceback
 from collections import Counter
 
-from .boot import HarnessError, VERIF_DIR, in_repo
+from .boot import HarnessError, VARIANT, VERIF_DIR, in_repo, variant_env
+
+try:
+    SCALE = min(1.0, max(0.01, float(os.environ.get("VERIF_SCALE") or 1)))
+except ValueError:
+    SCALE = 1.0
+HOST_VARIANT = "hostile-host"
+HOST_VARIANT_SCALE = 0.3
 
 MAX_ROUNDS = 3
 DISTINCT_CAP_WORKER = 400_000   # memory bound for the distinct/non-trivial set: beyond it the count is a lower bound
@@ -172,7 +179,7 @@ class Sub:
 
 
 def derive_seed(seed, name, shard):
-    h = hashlib.blake2b(f"{seed}/{name}/{shard}".encode(), digest_size=4).digest()
+    h = hashlib.blake2b(f"{seed}/{name}/{shard}{VARIANT and '/' + VARIANT}".encode(), digest_size=4).digest()
     return int.from_bytes(h, "big")
 
 
@@ -338,13 +345,16 @@ def _worker(task):
         if sub.setup:
             sub.setup()
         if sub.cases is not None:
-            cases = sub.cases()
-            _run_enum(rep, sub, cases[shard::nshards])
+            cases = sub.cases()[shard::nshards]
+            if SCALE < 1:
+                stride = max(1, round(1 / SCALE))
+                cases = cases[derive_seed(seed, sub.name, shard) % stride::stride]
+            _run_enum(rep, sub, cases)
         elif sub.machine is not None:
-            n = max(1, sub.n // nshards)
+            n = max(1, int(sub.n * SCALE) // nshards)
             _run_machine(rep, sub, n, derive_seed(seed, sub.name, shard))
         else:
-            n = max(1, sub.n // nshards)
+            n = max(1, int(sub.n * SCALE) // nshards)
             _run_hyp(rep, sub, n, derive_seed(seed, sub.name, shard))
     except HarnessError as exc:
         return {"harness_error": f"{sub.name}[{shard}]: {exc}"}
@@ -361,7 +371,7 @@ def load_known(prop):
     path = os.path.join(VERIF_DIR, "known_findings.json")
     if not os.path.exists(path):
         return []
-    with open(path) as fh:
+    with open(path, encoding="utf-8") as fh:
         data = json.load(fh)
     return [e for e in data.get("findings", []) if e.get("property") == prop]
 
@@ -372,7 +382,7 @@ def load_regress(prop):
     if os.path.isdir(d):
         for fn in sorted(os.listdir(d)):
             if fn.endswith(".json"):
-                with open(os.path.join(d, fn)) as fh:
+                with open(os.path.join(d, fn), encoding="utf-8") as fh:
                     out.append((fn, json.load(fh)))
     return out
 
@@ -380,10 +390,12 @@ def load_regress(prop):
 def write_replay(prop, rec):
     d = os.path.join(os.environ.get("VERIF_REPLAY_DIR") or os.path.join(VERIF_DIR, "replays"), prop)
     os.makedirs(d, exist_ok=True)
-    name = hashlib.blake2b(rec["signature"].encode(), digest_size=6).hexdigest() + ".json"
+    name = hashlib.blake2b((rec["signature"] + VARIANT).encode(), digest_size=6).hexdigest() + ".json"
     path = os.path.join(d, name)
     out = {k: v for k, v in rec.items() if not k.startswith("_")}
-    with open(path, "w") as fh:
+    if VARIANT:
+        out["variant"] = VARIANT      # ./check --replay re-executes itself in that environment
+    with open(path, "w", encoding="utf-8") as fh:
         json.dump(out, fh, indent=1, sort_keys=True)
     rel = os.path.relpath(path, VERIF_DIR)
     return path if rel.startswith("..") else rel
@@ -430,6 +442,7 @@ def run_property(module, tier, seed, jobs=None):
         for sh in range(ns):
             tasks.append((i, sh, ns, sorted(open_sigs)))
     errors = []
+    child = _spawn_variant(prop, tier, seed, jobs, module)
     if jobs == 1 or len(tasks) == 1:
         results = [_worker(t) for t in tasks]
     else:
@@ -444,20 +457,34 @@ def run_property(module, tier, seed, jobs=None):
         rep.merge(r)
         sub_wall[r["sub"]] += r["wall"]
     if errors:
+        _reap_variant(child, kill=True)
         for e in errors:
             print("HARNESS-ERROR:", e, file=sys.stderr)
         return 2
 
     # 3. verdict
-    wall = time.time() - t0
     new = {s: r for s, r in rep.violations.items() if s not in open_sigs}
+    # the host-variant pass only matters when the ordinary pass is clean (a broken tree fails both the same way)
+    variant = _reap_variant(child, kill=bool(new))
+    if variant and variant.get("harness_error"):
+        print("HARNESS-ERROR: host-variant pass:", variant["harness_error"], file=sys.stderr)
+        return 2
+    wall = time.time() - t0
     for sig, e in open_sigs.items():
         print(f"KNOWN-FINDING: property={prop} {e.get('what', sig)}")
-    write_evidence(module, rep, subs, wall, len(new), sub_wall)
+    vlines = (variant or {}).get("violation_lines", [])
+    write_evidence(module, rep, subs, wall, len(new) + len(vlines) // 4, sub_wall, variant)
+    if vlines:
+        for ln in vlines:
+            print(ln)
+        print(f"{prop} tier={tier} seed={seed}: {rep.evaluations} evaluations, {len(rep.nontrivial)} distinct non-trivial, "
+              f"0 violation signature(s) in the ordinary pass, {len(vlines) // 4} only under {HOST_VARIANT} "
+              f"({variant['summary'].get('env')}), {wall:.1f}s")
+        return 1
     for sig, rec in sorted(new.items()):
         path = write_replay(prop, rec)
         print(f"VIOLATION property={prop} replay={path}")
-        print(f"  signature: {sig}")
+        print(f"  signature: {sig}" + (f" @{VARIANT}" if VARIANT else ""))
         print(f"  expected:  {canon(rec['expected'])[:300]}")
         print(f"  observed:  {canon(rec['observed'])[:300]}")
     print(f"{prop} tier={tier} seed={seed}: {rep.evaluations} evaluations, "
@@ -466,7 +493,84 @@ def run_property(module, tier, seed, jobs=None):
     return 1 if new else 0
 
 
-def write_evidence(module, rep, subs, wall, nviol, sub_wall):
+def _spawn_variant(prop, tier, seed, jobs, module):
+    """Second pass: a sample of every sub-check in a child interpreter with assert statements stripped (python -O) and
+    the C locale without UTF-8 mode.  Runs beside the ordinary pass."""
+    if VARIANT or os.environ.get("VERIF_NO_VARIANT") or not getattr(module, "HOST_VARIANT", True):
+        return None
+    import subprocess
+    import tempfile
+    td = tempfile.mkdtemp(prefix="aiosw-variant-")
+    env = variant_env(HOST_VARIANT)
+    env.update(VERIF_SCALE=str(HOST_VARIANT_SCALE), VERIF_EVIDENCE_DIR=os.path.join(td, "ev"),
+               VERIF_REPLAY_DIR=os.environ.get("VERIF_REPLAY_DIR") or os.path.join(VERIF_DIR, "replays"))
+    cmd = [sys.executable, "-B", os.path.join(VERIF_DIR, "check"), prop, "--tier", tier, "--seed", str(seed),
+           "--jobs", str(max(1, jobs // 2))]
+    out = open(os.path.join(td, "stdout"), "w+", encoding="utf-8")
+    err = open(os.path.join(td, "stderr"), "w+", encoding="utf-8")
+    proc = subprocess.Popen(cmd, env=env, stdout=out, stderr=err, start_new_session=True)
+    return {"proc": proc, "dir": td, "out": out, "err": err, "env": {k: env[k] for k in ("PYTHONOPTIMIZE", "LC_ALL", "PYTHONUTF8")},
+            "prop": prop}
+
+
+def _reap_variant(child, kill=False):
+    if child is None:
+        return None
+    import shutil
+    import signal
+    proc = child["proc"]
+    try:
+        if kill:
+            try:
+                os.killpg(proc.pid, signal.SIGKILL)
+            except OSError:
+                pass
+            proc.wait()
+            return None
+        try:
+            rc = proc.wait(timeout=3 * 3600)
+        except Exception:
+            os.killpg(proc.pid, signal.SIGKILL)
+            proc.wait()
+            return {"harness_error": "timed out"}
+        child["out"].seek(0)
+        child["err"].seek(0)
+        stdout, stderr = child["out"].read(), child["err"].read()
+        if rc not in (0, 1):
+            return {"harness_error": f"exit status {rc}: {stderr[-1500:]}"}
+        try:
+            with open(os.path.join(child["dir"], "ev", f"{child['prop']}.json"), encoding="utf-8") as fh:
+                ev = json.load(fh)
+        except Exception as exc:  # noqa
+            return {"harness_error": f"no evidence from the child: {exc!r} {stderr[-800:]}"}
+        cov = ev["coverage"]
+        summary = {"env": " ".join(f"{k}={v}" for k, v in sorted(child["env"].items())),
+                   "sample_of_each_subcheck": HOST_VARIANT_SCALE,
+                   "evaluations": cov["evaluations"], "distinct_nontrivial": cov["distinct_nontrivial"],
+                   "per_subcheck_evaluations": cov["per_subcheck_evaluations"], "inconclusive": cov["inconclusive"],
+                   "violations": ev.get("violations", 0), "wall_s": ev["wall_s"]}
+        lines = []
+        if rc == 1:
+            keep = False
+            for ln in stdout.splitlines():
+                if ln.startswith("VIOLATION "):
+                    keep = True
+                    lines.append(ln)
+                elif keep and ln.startswith("  ") and len(lines) % 4:
+                    lines.append(ln)
+            if not lines:
+                return {"harness_error": f"child exit 1 without VIOLATION line: {stdout[-500:]}"}
+        return {"summary": summary, "violation_lines": lines}
+    finally:
+        for k in ("out", "err"):
+            try:
+                child[k].close()
+            except Exception:
+                pass
+        shutil.rmtree(child["dir"], ignore_errors=True)
+
+
+def write_evidence(module, rep, subs, wall, nviol, sub_wall, variant=None):
     samples = []
     for sub, lst in sorted(rep.samples.items()):
         for s in lst[:2]:
@@ -494,17 +598,23 @@ def write_evidence(module, rep, subs, wall, nviol, sub_wall):
         "wall_s": round(wall, 2),
         "violations": nviol,
     }
+    if variant and variant.get("summary"):
+        # counted apart: the child's cases are not de-duplicated against the ordinary pass
+        ev["coverage"]["host_variant_pass"] = variant["summary"]
+        ev["coverage"]["rule"] += (" A second pass (coverage.host_variant_pass, counted apart) runs a 30 % sample of every sub-check "
+                                   "in a child interpreter with assert statements stripped (PYTHONOPTIMIZE=1) under the C locale "
+                                   "without UTF-8 mode.")
     d = os.environ.get("VERIF_EVIDENCE_DIR") or os.path.join(VERIF_DIR, "evidence")
     os.makedirs(d, exist_ok=True)
     tmp = os.path.join(d, f".{module.PROP}.json.tmp")
-    with open(tmp, "w") as fh:
+    with open(tmp, "w", encoding="utf-8") as fh:
         json.dump(ev, fh, indent=1, sort_keys=True)
         fh.write("\n")
     os.replace(tmp, os.path.join(d, f"{module.PROP}.json"))
 
 
 def run_replay(module, path):
-    with open(path) as fh:
+    with open(path, encoding="utf-8") as fh:
         rec = json.load(fh)
     subs = {s.name: s for s in module.subchecks("quick")}
     sub = subs.get(rec["subcheck"])
